@@ -33,6 +33,9 @@ Definition line_s (r : res line) : string :=
   | Err e => append "E:" e
   end.
 Definition run_case (c : cfg) (ls : list line) : string := join ";" (map (fun l => line_s (design_line c l)) ls).
+(* through the entry point with its option no_insert_edfas *)
+Definition run_case_opt (no_insert : bool) (c : cfg) (ls : list line) : string :=
+  join ";" (map (fun l => line_s (design_line_opt no_insert c l)) ls).
 
 (* ---- oracle: the validators on one observed line; "ok" or the list of failing clauses key@index *)
 Fixpoint idx_fails {A} (key : string) (p : A -> bool) (l : list A) (i : Z) : list string :=
@@ -75,3 +78,15 @@ Definition amb (n : string) (multi auto : bool) (var : string) (g dp voa : bool)
   Amp (mkAmp n multi auto var (ob g) (ob dp) (ob voa)).
 Definition check_net (lib : list string) (pm : bool) (pad : Q) (ls : list (ekind * ekind * list elem)) : string :=
   join ";" (map (fun l => match l with (sk, dk, els) => check_line lib pm pad sk dk els end) ls).
+(* with no_insert_edfas the junction rule (what amplifier insertion guarantees) does not apply; every fibre still has
+   its connector losses, every amplifier its settings, every span its padding *)
+Definition check_line_opt (no_insert : bool) (lib : list string) (pm : bool) (pad : Q) (sk dk : ekind) (els : list elem) : string :=
+  let f := idx_fails "conn" fib_ok els 0
+           ++ idx_fails "amp" (amp_ok lib pm) els 0
+           ++ (if no_insert then [] else adj_fails "junction" pair_ok (path sk dk els) 0)
+           ++ idx_fails "padcore" (run_padded pad) (runs els) 0
+           ++ seg_fails pad els
+           ++ (if nodupb (names els) then [] else ["dupname@0"%string]) in
+  match f with [] => "ok"%string | _ => join "," f end.
+Definition check_net_opt (no_insert : bool) (lib : list string) (pm : bool) (pad : Q) (ls : list (ekind * ekind * list elem)) : string :=
+  join ";" (map (fun l => match l with (sk, dk, els) => check_line_opt no_insert lib pm pad sk dk els end) ls).
